@@ -34,6 +34,7 @@ type c10Case struct {
 	Outbound    int    `json:"outbound"`    // messages the application sends on the same stream while frames arrive
 	ShutdownAt  int    `json:"shutdown_at"` // the application requests shutdown after this many deliveries (0 = not before the end)
 	ReadYield   int    `json:"read_yield"`
+	EmptyReads  int    `json:"empty_reads"` // > 0: every n-th read returns no bytes and no error
 	ParseBefore int    `json:"parse_before"`
 	ParseAfter  int    `json:"parse_after"`
 }
@@ -102,6 +103,7 @@ func c10Gen(tier string, seed uint64, i int) any {
 		c.ShutdownAt = 1 + r.Intn(maxInt(1, c.Frames))
 	}
 	c.ReadYield = r.Pick(0, 0, 1, 3)
+	c.EmptyReads = r.Pick(0, 0, 0, 1, 2, 3, 7)
 	c.ParseBefore = r.Pick(0, 0, 1, 5)
 	c.ParseAfter = r.Pick(0, 0, 1, 5)
 	return c
@@ -274,6 +276,10 @@ func c10Eval(c *fw.Ctx, data any) {
 	conn := sched.NewConn(streamBytes)
 	conn.Cuts = cuts
 	conn.ReadYield = cs.ReadYield
+	conn.EmptyEvery = cs.EmptyReads
+	if cs.EmptyReads == 1 { // a reader that made no progress at all would spin: every other read then
+		conn.EmptyEvery = 2
+	}
 	failing := cs.FailAt != -1
 	failPos := -1
 	if failing {
